@@ -96,3 +96,14 @@ Example C11_roundtrip_instance :
   exists out1 out2, cli 20 uc o None txt = CliOk out1 /\ ordering_of_file uc otxt2 = Done (number_from 0 (out_order out1)) /\
     cli 20 uc o (Some otxt2) txt = CliOk out2 /\ out_rows out2 = out_rows out1 /\ out_header out1 = ((98 :: nil) :: (97 :: nil) :: nil)%N.
 Proof. do 2 eexists. split; [vm_compute; reflexivity|]. split; [vm_compute; reflexivity|]. split; [vm_compute; reflexivity|]. split; reflexivity. Qed.
+
+(** ... and without the hypothesis that the second run answers: if the first run prints, the run that reads the exported
+    order back tokenizes, parses, evaluates for every sufficient fuel and prints the identical output *)
+From Rsbdd Require Import Cli.RoundTripTotal.
+Theorem C11_roundtrip_total fuel uc o ordfile1 txt out1 :
+  cli fuel uc o ordfile1 txt = CliOk out1 ->
+  exists fuel0, forall fuel', fuel0 <= fuel' ->
+    exists out2, cli fuel' uc o (Some (export (out_order out1))) txt = CliOk out2 /\
+      out_header out2 = out_header out1 /\ out_rows out2 = out_rows out1 /\ out_true out2 = out_true out1 /\ out_order out2 = out_order out1.
+Proof. exact (RoundTripTotal.C11_roundtrip_export_total fuel uc o ordfile1 txt out1). Qed.
+Print Assumptions C11_roundtrip_total.
